@@ -339,21 +339,9 @@ func (p *Peer) handleReady(rd myraft.Ready) error {
 		info.setInjected(failpoints.ShouldFailBeforeStorage())
 	}
 
-	if !myraft.IsEmptyHardState(rd.HardState) {
-		if err := p.raftLog.injectFailure("before_hard_state"); err != nil {
-			return err
-		}
-		if err := p.storage.SetHardState(rd.HardState); err != nil {
-			return err
-		}
-		if info := p.raftLog; info != nil {
-			info.capturePointer(manifest.RaftLogPointer{
-				GroupID:      info.groupID,
-				AppliedIndex: rd.Commit,
-				AppliedTerm:  rd.Term,
-			})
-		}
-	}
+	// Persist the snapshot and the entries before the hard state (etcd/raft: "Entries first, then
+	// HardState"): the hard state's commit index may refer to entries of this very Ready, and a
+	// crash between the calls must not leave a commit index beyond the persisted log.
 	if !myraft.IsEmptySnap(rd.Snapshot) {
 		if err := p.raftLog.injectFailure("before_snapshot"); err != nil {
 			return err
@@ -386,6 +374,21 @@ func (p *Peer) handleReady(rd myraft.Ready) error {
 				GroupID:      info.groupID,
 				AppliedIndex: last.Index,
 				AppliedTerm:  last.Term,
+			})
+		}
+	}
+	if !myraft.IsEmptyHardState(rd.HardState) {
+		if err := p.raftLog.injectFailure("before_hard_state"); err != nil {
+			return err
+		}
+		if err := p.storage.SetHardState(rd.HardState); err != nil {
+			return err
+		}
+		if info := p.raftLog; info != nil {
+			info.capturePointer(manifest.RaftLogPointer{
+				GroupID:      info.groupID,
+				AppliedIndex: rd.Commit,
+				AppliedTerm:  rd.Term,
 			})
 		}
 	}
